@@ -1709,6 +1709,9 @@ class WassersteinDistanceNewton(VariationalWassersteinDistance):
             except Exception:
                 warnings.warn("Newton iteration abruptly stopped due to some error.")
                 iteration_failed = True
+                # The failure may have hit after the iterate has been updated (e.g. in
+                # the acceleration); report the distance of the iterate that is returned
+                new_distance = self.l1_dissipation(solution_i[self.flux_slice])
                 break
 
         # Summarize profiling (time in seconds, memory in GB)
@@ -2080,6 +2083,9 @@ class WassersteinDistanceBregman(VariationalWassersteinDistance):
             except Exception:
                 warnings.warn("Bregman iteration abruptly stopped due to some error.")
                 iteration_failed = True
+                # The failure may have hit after the flux has been updated (e.g. in the
+                # acceleration); report the distance of the flux that is returned
+                new_distance = self.l1_dissipation(flux)
                 break
 
         # Solve for the pressure by solving a single Newton iteration
